@@ -4,6 +4,7 @@ import (
 	"context"
 
 	errorsmod "cosmossdk.io/errors"
+	sdkmath "cosmossdk.io/math"
 
 	sdk "github.com/cosmos/cosmos-sdk/types"
 	sdkerrors "github.com/cosmos/cosmos-sdk/types/errors"
@@ -90,7 +91,11 @@ func (k msgServer) CancelSpotOrder(goCtx context.Context, msg *types.MsgCancelSp
 
 	// Get all balances from the spot order address
 	orderAddress := spotOrder.GetOrderAddress()
-	balances := k.Keeper.bank.GetAllBalances(ctx, orderAddress)
+	// only what the order itself escrowed: anybody can park other coins at the (predictable) escrow
+	// address, and coins that cannot be moved from there (a locked account) would make the refund,
+	// and with it every cancel of this order, fail
+	escrowed := k.Keeper.bank.GetAllBalances(ctx, orderAddress).AmountOf(spotOrder.OrderAmount.Denom)
+	balances := sdk.NewCoins(sdk.NewCoin(spotOrder.OrderAmount.Denom, sdkmath.MinInt(spotOrder.OrderAmount.Amount, escrowed)))
 
 	// Send all available balances back to the owner if there are any
 	if !balances.IsZero() {
